@@ -15,9 +15,56 @@ class Unsupported(Exception):
 
 
 class Env:
-    def __init__(self, names=None, attrs=None):
+    def __init__(self, names=None, attrs=None, user=None, on_call=None):
         self.names = dict(names or {})
         self.attrs = dict(attrs or {})  # "self._fun_filter" -> python list
+        # user(call) -> (FunctionDef node, bound self name or None) for calls
+        # of small helpers of the analysed code; their body is interpreted
+        self.user = user
+        self.on_call = on_call
+
+
+class _Return(Exception):
+    def __init__(self, value):
+        self.value = value
+
+
+def call_user(fnode, self_name, call, env, depth=0):
+    """Interpret a call of a helper of the analysed code: parameters are
+    bound to the evaluated arguments, attribute state is shared."""
+    if depth > 6:
+        raise Unsupported("helper recursion")
+    a = fnode.args
+    if a.vararg or a.kwarg or a.posonlyargs or a.kwonlyargs:
+        raise Unsupported(f"signature of helper {fnode.name}")
+    params = [x.arg for x in a.args]
+    if self_name is not None:
+        params = params[1:]
+    vals = {}
+    if any(isinstance(x, ast.Starred) for x in call.args) or any(k.arg is None for k in call.keywords):
+        raise Unsupported("star arguments")
+    for pn, av in zip(params, call.args):
+        vals[pn] = ev(av, env)
+    for k in call.keywords:
+        if k.arg not in params or k.arg in vals:
+            raise Unsupported(f"keyword {k.arg}")
+        vals[k.arg] = ev(k.value, env)
+    ndef = len(a.defaults)
+    for pn, d in zip([x.arg for x in a.args][len(a.args) - ndef:], a.defaults):
+        if pn not in vals:
+            vals[pn] = ev(d, env)
+    if set(vals) != set(params):
+        raise Unsupported(f"arguments of helper {fnode.name}")
+    sub = Env(vals, None, env.user, env.on_call)
+    sub.attrs = env.attrs          # shared object state
+    if self_name is not None and self_name != "self":
+        raise Unsupported("receiver name")
+    body = fnode.body
+    try:
+        run_block(body, sub, env.on_call, depth + 1)
+    except _Return as r:
+        return r.value
+    return None
 
 
 def ev(e, env):
@@ -134,6 +181,10 @@ def ev(e, env):
         if name in ("min", "max") and e.args:
             vals = [ev(a, env) for a in e.args]
             return min(vals) if name == "min" else max(vals)
+        if env.user is not None:
+            hit = env.user(e)
+            if hit is not None:
+                return call_user(hit[0], hit[1], e, env)
         raise Unsupported(f"call {ast.unparse(e.func)}")
     if isinstance(e, ast.Tuple):
         return tuple(ev(x, env) for x in e.elts)
@@ -148,7 +199,8 @@ def comp(c, env):
     g = c.generators[0]
     it = ev(g.iter, env)
     for item in it:
-        sub = Env(env.names, env.attrs)
+        sub = Env(env.names, None, env.user, env.on_call)
+        sub.attrs = env.attrs
         bind(g.target, item, sub)
         if all(ev(cond, sub) for cond in g.ifs):
             yield ev(c.elt, sub)
@@ -189,9 +241,25 @@ def run_block(stmts, env, on_call=None, depth=0):
                 bind(s.target, item, env)
                 run_block(s.body, env, on_call, depth + 1)
         elif isinstance(s, ast.Expr) and isinstance(s.value, ast.Call):
+            hit = env.user(s.value) if getattr(env, "user", None) is not None else None
+            if hit is not None:
+                call_user(hit[0], hit[1], s.value, env, depth)
+                continue
             if on_call is None:
                 raise Unsupported("call statement")
             on_call(s.value, env)
+        elif isinstance(s, ast.Return):
+            raise _Return(ev(s.value, env) if s.value is not None else None)
+        elif isinstance(s, ast.AugAssign) and isinstance(s.target, ast.Name):
+            cur = ev(ast.Name(id=s.target.id, ctx=ast.Load()), env)
+            env.names[s.target.id] = ev(ast.BinOp(left=ast.Constant(cur), op=s.op, right=s.value), env)
+        elif isinstance(s, ast.While):
+            k = 0
+            while ev(s.test, env):
+                k += 1
+                if k > 10000:
+                    raise Unsupported("non-terminating while")
+                run_block(s.body, env, on_call, depth + 1)
         elif isinstance(s, ast.Pass):
             continue
         elif isinstance(s, ast.Expr) and isinstance(s.value, ast.Constant):
